@@ -41,11 +41,18 @@ def make_pool(rnd, n):
     pool = []
     extra = ["9-5", "tomorrow 9-5", "call mom tomorrow 8pm #family", "xyzzy", "", "lunch friday 12-13 #work #food", "8", "at 8 on monday",
              # streams that share lexemes (a value object shared between streams shows only then)
-             "um mitternacht", "midnight tomorrow", "am 27.10. gegen mitternacht", "heute", "heute 8 uhr", "noon", "tomorrow noon", "monday", "on monday"]
+             "um mitternacht", "midnight tomorrow", "am 27.10. gegen mitternacht", "heute", "heute 8 uhr", "noon", "tomorrow noon", "monday", "on monday",
+             # the same lexemes in different orders / multiplicities (a memo keyed by a summary of the token sequence would confuse them)
+             "7:00 8:00 9:00 -", "8:00 - 9:00 -", "- 9:00 8:00 -", "8:00 9:00 - 7:00"]
     for i, t in enumerate(extra + texts[:n]):
         pool.append({"text": t, "ts": [2018, 3, 7, 12, 43] if i % 3 else [2020, 2, 29, 23, 59], "kind": "gen" if i % 2 else "single",
                      "depth": [10, 1, 10, 0][i % 4] if len(t) < 12 else 10, "latent": i % 2 if i % 5 else 1,
                      "rel": [1.0, 1.0, 0.5][i % 3], "scorer": ["shipped", "dummy", "random"][i % 3], "seed": i})
+    # the same text under the shipped model AND under a second naive-Bayes model (state shared between scorers shows only then)
+    for j, t in enumerate(["5.6. 8 Uhr", "tomorrow 9-5", "heute 8 uhr", "monday 10:30", "31.12. 23:59"]):
+        for sc in ("shipped", "other", "shipped"):
+            pool.append({"text": t, "ts": [2018, 3, 7, 12, 43], "kind": "gen" if j % 2 else "single", "depth": 10, "latent": 1, "rel": 1.0,
+                         "scorer": sc, "seed": 0})
     for c in pool:
         if c["text"] in ("um mitternacht", "midnight tomorrow", "am 27.10. gegen mitternacht", "heute", "heute 8 uhr", "noon", "tomorrow noon", "monday", "on monday"):
             c["kind"] = "gen"
@@ -257,6 +264,19 @@ def run(ctx):
         obs.append({"kind": "history", "got": got, "solo": sl, "exact": ex, "snap0": s0, "snap1": solo.snapshot(qa),
                     "args0": "a", "args1": "a", "_what": {"history": [pool[i]["text"] for i in seq]}})
         nh += 1
+    # ---- model-switch histories: every text of the pool that exists under two models, called shipped / other / shipped / other -------
+    by_text = {}
+    for i, c in enumerate(pool):
+        if c["scorer"] in ("shipped", "other"):
+            by_text.setdefault((c["text"], c["kind"]), {}).setdefault(c["scorer"], i)
+    for (t, kind), d in sorted(by_text.items()):
+        if len(d) == 2:
+            s0 = solo.snapshot(qa)
+            seq = [d["shipped"], d["other"], d["shipped"], d["other"]]
+            got = [solo.run_case(qa, pool[i]) for i in seq]
+            obs.append({"kind": "history", "got": got, "solo": [ref[i] for i in seq], "exact": [1] * 4, "snap0": s0, "snap1": solo.snapshot(qa),
+                        "args0": "a", "args1": "a", "_what": {"history": ["%s under %s" % (t, pool[i]["scorer"]) for i in seq]}})
+            nh += 1
     # ---- threads ----------------------------------------------------------------------------------------
     old = sys.getswitchinterval()
     sys.setswitchinterval(1e-6)
